@@ -158,6 +158,12 @@ int main(int argc, char** argv) {
   write_file(F + "/bad/trunc_before_footer", ny.substr(0, raw.consumed - raw.footer.size() - 2));
   write_file(F + "/bad/trunc_in_footer", ny.substr(0, ny.size() - 3));
   write_file(F + "/bad/garbage", std::string(200, 'x'));
+  {  // a version-1-only file (no second block, no footer) is valid and must load; trailing bytes after the data are tolerated
+    tzgen::TzSpec sp; sp.version = 1; sp.types = {{-1234, false, "LMT"}, {3600, false, "CET"}}; sp.times = {-1000000000LL}; sp.idx = {1};
+    const std::string v1 = tzgen::write_tzif(sp);
+    write_file(F + "/good/v1only", v1);
+    write_file(F + "/good/v1only_with_trailing_garbage", v1 + "garbage after the data block");
+  }
   // every truncation point from just before the footer to one byte short of the end
   std::vector<std::string> footer_cuts;
   for (size_t cut = raw.consumed - raw.footer.size() - 3; cut < ny.size(); ++cut) {
@@ -186,13 +192,15 @@ int main(int argc, char** argv) {
   }
   std::vector<std::string> names = {"America/New_York", "Nope/Missing", F + "/Europe/London", "/nonexistent/x", "file:America/New_York", "file:" + F + "/Europe/London", "",
                                     "America", "bad/empty", "bad/trunc_header", "bad/trunc_second_header", "bad/trunc_data", "bad/trunc_before_footer", "bad/trunc_in_footer", "bad/garbage", "bad/leap",
-                                    ":America/New_York", "UTC", "UTC0", "Fixed/UTC+05:30:00", "Fixed/UTC-00:00:01", "file:", "file:Nope", "file:bad/empty", "Europe/London", "europe/london", "America/New_York/", "./America/New_York", "America//New_York"};
+                                    ":America/New_York", "UTC", "UTC0", "Fixed/UTC+05:30:00", "Fixed/UTC-00:00:01", "file:", "file:Nope", "file:bad/empty", "Europe/London", "europe/london", "America/New_York/", "./America/New_York", "America//New_York",
+                                    "file:file:America/New_York", "File:America/New_York", "file:/America/New_York", "good/v1only", "good/v1only_with_trailing_garbage", "localtime", ":localtime"};
   for (auto& n : footer_cuts) names.push_back(n);
   std::vector<Env> envs;
   struct V { bool set; std::string v; std::string label; };
   std::vector<V> tzdirs = {{false, "", "unset"}, {true, "", "empty"}, {true, F, "valid"}, {true, "/nonexistent-dir", "missing"}, {true, F + "/", "valid-slash"}};
   std::vector<V> tzs = {{false, "", "unset"}, {true, "", "empty"}, {true, "America/New_York", "X"}, {true, ":America/New_York", ":X"}, {true, "::America/New_York", "::X"}, {true, "localtime", "localtime"},
-                        {true, ":localtime", ":localtime"}, {true, "Nope/Invalid", "invalid"}, {true, F + "/Asia/Kathmandu", "abs"}, {true, "UTC", "UTC"}, {true, ":", "colon-only"}, {true, "Fixed/UTC+01:00:00", "fixed"}};
+                        {true, ":localtime", ":localtime"}, {true, "Nope/Invalid", "invalid"}, {true, F + "/Asia/Kathmandu", "abs"}, {true, "UTC", "UTC"}, {true, ":", "colon-only"}, {true, "Fixed/UTC+01:00:00", "fixed"}, {true, "localtime2", "localtime-prefix"}, {true, "LOCALTIME", "localtime-uppercase"},
+                        {true, "file:America/New_York", "file-prefixed"}};
   std::vector<V> lts = {{false, "", "unset"}, {true, F + "/Australia/Lord_Howe", "valid"}, {true, "/nonexistent", "invalid"}, {true, "", "empty"}, {true, "Asia/Kathmandu", "relative"}};
   for (auto& d : tzdirs) for (auto& t : tzs) for (auto& l : lts) envs.push_back({d.set, t.set, l.set, d.v, t.v, l.v, "TZDIR=" + d.label + " TZ=" + t.label + " LOCALTIME=" + l.label});
   std::vector<std::string> hexnames;
